@@ -63,6 +63,11 @@ type interpreter struct {
 	wg       sync.WaitGroup
 
 	top             *frame
+	supp            map[int]*suppInfo
+	varIdx          map[string]int
+	varTerms        []*smt.Term
+	fe              *smt.FastEval
+	Enumerated      int64
 	held            map[*value]int
 	maxConcOverride int
 
@@ -304,7 +309,10 @@ func visitInstr(fr *frame, instr ssa.Instruction) continuation {
 				cond := i.ctx.Eq(addr.idx, i.ctx.BVConst(64, uint64(k)))
 				nv, ok := i.iteValue(cond, v, addr.elems[k])
 				if !ok {
-					panic(pathEnd{kind: "unsupported", msg: "symbolic-index store of non-scalar element"})
+					// not mergeable: fork on the index instead
+					kk := i.concretiseTerm(addr.idx, "store index")
+					i.store(deref(instr.Addr.Type()), &addr.elems[kk], v)
+					break
 				}
 				i.store(deref(instr.Addr.Type()), &addr.elems[k], nv)
 			}
